@@ -325,6 +325,9 @@ def s_raw_kill(vc):
 def s_dns_kill(vc):
     which = vc.case("hook", ["DnsRequestHook", "DnsResponseHook"])
     kill = vc.case("kill", [True, False])
+    # a resolver re-sends an unanswered query with the same id: it belongs to the same DNSFlow, which the user may have
+    # killed in the meantime - the re-sent copy of a killed flow must not be forwarded either
+    killed_earlier = (which == "DnsRequestHook") and (not kill) and vc.case("re-sent query of a flow killed earlier", [False, True])
     client = mk_client(vc, transport_protocol="udp")
     server = mk_server(vc, timestamp_start=2.0, transport_protocol="udp", address=("8.8.8.8", 53))
     from mitmproxy.connection import ConnectionState
@@ -336,6 +339,9 @@ def s_dns_kill(vc):
                op_code=0, authoritative_answer=False, truncation=False, recursion_desired=True, recursion_available=True, reserved=0, response_code=0)
     fl = vc.new("mitmproxy.dns:DNSFlow", client_conn=client, server_conn=server, request=q, response=None, live=True, error=None, id="flow-id", intercepted=False,
                 marked="", is_replay=None, metadata=vc.dict([]), comment="", timestamp_created=1.0, _backup=None, _resume_event=None)
+    if killed_earlier:
+        fl.error = vc.new("mitmproxy.flow:Error", msg="Connection killed.", timestamp=1.5)
+        fl.live = False
     lay = vc.new(DNS, context=ctx, flows=vc.dict([]), req_buf=b"", resp_buf=b"", debug=None, _paused=None, _paused_event_queue=None)
     packed = []
 
@@ -363,7 +369,10 @@ def s_dns_kill(vc):
     if which == "DnsRequestHook":
         vc.ensure("request.never_forwarded_upstream_when_killed", Implies(kill, not any(c.connection is server for c in sends)))
         vc.ensure("request.killed_ends_with_error_hook", Implies(kill, "DnsErrorHook" in k))
-        if not kill:
+        if killed_earlier:
+            vc.ensure("request.resent_query_of_killed_flow.never_forwarded_upstream", not any(c.connection is server for c in sends))
+            vc.ensure("request.resent_query_of_killed_flow.still_ends_with_error", "DnsErrorHook" in k and not isnone(fl.error))
+        elif not kill:
             vc.ensure("request.forwarded_once", len(sends) == 1 and sends[0].connection is server)
     else:
         vc.ensure_kf("response.forwarded_iff_not_killed", len(sends) == (0 if kill else 1), "KF-C11-2", kill)
